@@ -286,13 +286,13 @@ Definition co_pop (k : nat) (lens : list nat) (s : state) : cres * list (list Z)
    true, 6a782fc): when minicoro.resume refuses, the bytes of the arguments are popped again
    (minicoro.pop(co, nilptr, <sum of the argument sizes>), result ignored); the old behaviour (arguments stay
    pushed) is kept under the scraped flag so that a revert changes the model and breaks the proofs. *)
-Definition co_resume (k : nat) (vals : list (list Z)) (s : state) : cres * state :=
+Definition co_resume_with (rolls_back : bool) (k : nat) (vals : list (list Z)) (s : state) : cres * state :=
   let '(r1, s1) := match vals with [] => (COk, s) | _ => co_push k vals s end in
   match r1 with
   | COk =>
     let '(e, s2) := mco_resume k s1 in
     if is_success e then (COk, s2)
-    else if RESUME_ROLLS_BACK_ARGS then
+    else if rolls_back then
       match vals with
       | [] => (CErr e, s2)
       | _ => let '(_, s3, _) := mco_pop k false (List.length (List.concat vals)) s2 in (CErr e, s3)
@@ -300,6 +300,8 @@ Definition co_resume (k : nat) (vals : list (list Z)) (s : state) : cres * state
     else (CErr e, s2)
   | _ => (r1, s1)
   end.
+
+Definition co_resume := co_resume_with RESUME_ROLLS_BACK_ARGS.
 
 (* coroutine.yield(...): always on mco_running(); from the main program that is nil and both
    coroutine.push(nil, ...) and minicoro.yield(nil) answer MCO_INVALID_COROUTINE *)
@@ -325,8 +327,8 @@ Definition gc_unregister (k : nat) (s : state) : option state :=
    in a GC build, gc:unregister(co) only when it succeeded (the assertion of GC:unregister then needs
    the coroutine to be registered).  The old order (unregister first) is kept under the scraped flag so
    that a revert of the repair changes the model and breaks the proofs that need the repaired order. *)
-Definition co_destroy (k : nat) (s : state) : cres * state :=
-  if gcon s && DESTROY_UNREGISTERS_FIRST then
+Definition co_destroy_with (unregisters_first : bool) (k : nat) (s : state) : cres * state :=
+  if gcon s && unregisters_first then
     match gc_unregister k s with
     | None => (CPanic PANIC_UNREGISTER, s)
     | Some s1 => let '(e, s2) := mco_destroy k s1 in (cres_of e, s2)
@@ -339,6 +341,8 @@ Definition co_destroy (k : nat) (s : state) : cres * state :=
       | None => (COk, s2)
       end
     else (cres_of e, s2).
+
+Definition co_destroy := co_destroy_with DESTROY_UNREGISTERS_FIRST.
 
 Definition co_status (k : nat) (s : state) : string :=
   match get k (cos s) with
